@@ -473,6 +473,12 @@ def run(tier):
     for sh in common.pmap_shards(_worker, items, shard_size=3, order_seed=rep.seed):
         rep.merge(sh)
     typed_txn_driver(rep, _VERSIONS)
+    # two methods that cannot be told apart by selector: a call meant for the second would be handed to the first
+    # (the contract lists both) - the second registration has to be refused (C08's family (f), shared)
+    cout = {"counters": {}, "outcomes": {}, "violations": [], "samples": []}
+    for kind in ("collide", "collide-rev", "same"):
+        c08.check_collision({"collision": kind}, cout, _VERSIONS)
+    rep.merge(cout)
     rep.counters["distinct_nontrivial"] = rep.counters.get("states", 0)
     rep.assumptions = ["algosdk AtomicTransactionComposer / abi codec as the ARC-4 client reference", "reference AVM"]
     if not rep.outcomes.get("APPROVE") or not rep.outcomes.get("wrong_txn:FAIL"):
@@ -488,7 +494,10 @@ def replay(case):
         for v in rep.violations[:5]:
             print("still violates:", v["title"][:300])
         return bool(rep.violations)
-    if "lifecycle" in case["case"]:
+    if "collision" in case["case"]:
+        from . import c08
+        c08.check_collision(case["case"], out, (case["version"],))
+    elif "lifecycle" in case["case"]:
         from . import c08
         c08.check_lifecycle(case["case"], out, (case["version"],))
     else:
